@@ -42,8 +42,10 @@ OnKillCall ==
     \* a kill aimed at x reaches the whole subtree below it through other kill messages ("!x": x was aimed at)
     /\ dirty' = dirty \cup {"!" \o Ev.a}
     \* the user messages told to x before this poison kill and not yet delivered
-    /\ prior' = IF Ev.v = 1 /\ Ev.a \notin DOMAIN prior
-                THEN Put(prior, Ev.a, {m \in DOMAIN fromOf : fromOf[m][2] = Ev.a /\ m \notin delivered})
+    \* (a poison kill is passed on to the descendants as a poison kill: what they were told before counts for them too)
+    /\ prior' = IF Ev.v = 1
+                THEN [d \in DOMAIN prior \cup Subtree(parent, Ev.a) |->
+                        IF d \in DOMAIN prior THEN prior[d] ELSE {m \in DOMAIN fromOf : fromOf[m][2] = d /\ m \notin delivered}]
                 ELSE prior
     /\ UNCHANGED <<bad, last, requeued, reqSeq, stash, parent, delivered, fromOf>>
 OnStashed == /\ Ev.e = "Stashed" /\ stash' = Put(stash, Ev.a, Append(Get(stash, Ev.a, <<>>), Ev.m))
@@ -64,6 +66,11 @@ OnDeliv ==
            cleanPoison == /\ Ev.k = "kill" /\ Ev.v = 1 /\ "*" \notin dirty /\ a \notin dirty
                           /\ \A y \in Anc(parent, a) : ("!" \o y) \notin dirty
                           /\ Get(kcalls, a, 0) = 1 /\ a \in DOMAIN prior
+           \* the poison kill that reaches a through exactly one poison-killed ancestor (nobody else was ever aimed at)
+           aimedAnc == {y \in Anc(parent, a) : ("!" \o y) \in dirty}
+           cleanProp == /\ Ev.k = "kill" /\ Ev.v = 1 /\ "*" \notin dirty /\ a \notin dirty /\ ("!" \o a) \notin dirty
+                        /\ Get(kcalls, a, 0) = 0 /\ a \in DOMAIN prior
+                        /\ Cardinality(aimedAnc) = 1 /\ \A y \in aimedAnc : Get(kcalls, y, 0) = 1 /\ y \in DOMAIN prior
        IN /\ last' = IF Ev.k = "user" /\ ~isReq THEN Put(last, a, Ev.m) ELSE last
           /\ requeued' = IF isReq THEN requeued \ {Ev.m} ELSE requeued
           /\ reqSeq' = IF isReq /\ rs # <<>> THEN Put(reqSeq, a, Tail(rs)) ELSE reqSeq
@@ -72,7 +79,7 @@ OnDeliv ==
           /\ bad' = IF isMsg /\ a \in pendingImm THEN Flag("ImmediateKillOvertakes")
                      ELSE IF Ev.k = "user" /\ ~isReq /\ Ev.s # "sstash" /\ Ev.m < Get(last, a, 0) THEN Flag("SendOrder")
                      ELSE IF isReq /\ (rs = <<>> \/ Head(rs) # Ev.m) THEN Flag("StashOrder")
-                     ELSE IF cleanPoison /\ prior[a] \ delivered # {} THEN Flag("PoisonKillAfterPrior")
+                     ELSE IF (cleanPoison \/ cleanProp) /\ prior[a] \ delivered # {} THEN Flag("PoisonKillAfterPrior")
                      ELSE bad
     /\ UNCHANGED <<stash, parent, dirty, kcalls, prior, fromOf>>
 OnEvKilled == /\ Ev.e = "EvKilled" /\ pendingImm' = pendingImm \ {Ev.a}
@@ -80,9 +87,13 @@ OnEvKilled == /\ Ev.e = "EvKilled" /\ pendingImm' = pendingImm \ {Ev.a}
 \* a restart hook marks a new incarnation: what was pending for the old one is moot
 OnHook == /\ Ev.e = "Hook" /\ dirty' = dirty \cup {Ev.a}
           /\ UNCHANGED <<bad, last, requeued, reqSeq, stash, pendingImm, parent, kcalls, prior, delivered, fromOf>>
-OnOther == /\ Ev.e \notin {"Reset", "Spawn", "Tell", "Fail", "KillCall", "Stashed", "Unstashed", "Deliv", "EvKilled", "Hook"}
+\* at rest: what Unstash gave back to a running, unpaused actor whose mailbox is empty has been delivered ("each exactly once")
+OnAState == /\ Ev.e = "AState"
+            /\ bad' = IF Ev.s = "running" /\ Ev.v = 0 /\ Ev.m = 0 /\ Get(reqSeq, Ev.a, <<>>) # <<>> THEN Flag("StashedComeBackExactlyOnce") ELSE bad
+            /\ UNCHANGED <<last, requeued, reqSeq, stash, pendingImm, parent, dirty, kcalls, prior, delivered, fromOf>>
+OnOther == /\ Ev.e \notin {"Reset", "Spawn", "Tell", "Fail", "KillCall", "Stashed", "Unstashed", "Deliv", "EvKilled", "Hook", "AState"}
            /\ UNCHANGED <<bad, last, requeued, reqSeq, stash, pendingImm, parent, dirty, kcalls, prior, delivered, fromOf>>
-Next == l <= Len(TLog) /\ l' = l + 1 /\ (OnReset \/ OnSpawn \/ OnTell \/ OnFail \/ OnKillCall \/ OnStashed \/ OnUnstashed \/ OnDeliv \/ OnEvKilled \/ OnHook \/ OnOther)
+Next == l <= Len(TLog) /\ l' = l + 1 /\ (OnReset \/ OnSpawn \/ OnTell \/ OnFail \/ OnKillCall \/ OnStashed \/ OnUnstashed \/ OnDeliv \/ OnEvKilled \/ OnHook \/ OnAState \/ OnOther)
 Spec == Init /\ [][Next]_vars
 Ok == bad = ""
 Accepted == TLCGet("stats").diameter - 1 = Len(TLog)
